@@ -21,7 +21,7 @@ TRUSTED = ["Coq 8.16.1 kernel + vm_compute (primitive floats)", "Rust executor /
            "hand-written Gallina model coq/Model/Newton.v (jacobian) on coq/Model/Matrix.v (set_col), tied to src/matrix/functions.rs by differential execution"]
 ASSUMPTIONS = ["Rust semantics of Vec/usize/closures as modelled; the closure passed to jacobian is a pure function of its argument",
                "the O(delta) truncation bound for smooth maps and the one-ulp drift of (x+delta)-delta on non-dyadic data are searched and tied, not proved"]
-UNPROVED = ["O(delta) truncation error for smooth maps (search: |J - Df| <= delta*max|f''| + rounding floor)",
+UNPROVED = ["round two: jacobian_truncation / jacobian_truncation_C (|J_ij - d_j f_i| <= |delta|/2 sup|d_j^2 f_i| over R and componentwise over C) are proved; what remains search-only is the float rounding floor",
             "floating-point rounding of the quotient and the drift of the restored coordinate on non-dyadic data (the float model reproduces both bit for bit; tie)"]
 
 MANIFEST = dict(
